@@ -97,6 +97,9 @@ def failingNames (C : Chk) (tab : List (String × FunDef)) : List String :=
 def maskNames (bad : List String) (tab : List (String × FunDef)) : List FunDef :=
   tab.map fun p => if bad.contains p.1 then { p.2 with body := [], defaults := [], isOpaque := true } else p.2
 
+/-- position of a function of the table, by name -/
+def funIdx (name : String) (tab : List (String × FunDef)) : Option Nat := tab.findIdx? (fun p => p.1 == name)
+
 /-! ### the three checkers used by the property theorems -/
 
 /-- everything is allowed (the unconditional theorems) -/
